@@ -140,6 +140,47 @@ def split_outputs(lines):
     return out
 
 
+def big_forest_leg(rng, path, stats):
+    """C04 on a forest with hundreds of leaves per tree: a default-precision K-nearest search returns a result whenever a
+    live document passes the filter — with a filter that accepts one document out of thousands, and after all but a
+    few documents were removed (most leaves empty). Judged without the model (the implementation's own exact search
+    and the known documents are the reference)."""
+    n, dim = 5000, 8
+    c = SearchCase(dim, 64, 0, 0)
+    P = 5003
+    for i in range(1, n + 1):
+        c.add(i, [rng.uniform(-1, 1) for _ in range(dim)], b'b')
+    probes = []
+    for _ in range(40):
+        id_ = rng.randrange(1, n + 1)
+        qv = [rng.uniform(-1, 1) for _ in range(dim)]
+        c.search(1, 0.0, False, 1, P, id_, qv)
+        probes.append(('a filter that accepts only document %d of %d' % (id_, n), {id_}))
+    keep = set(rng.sample(range(1, n + 1), 2))
+    for i in range(1, n + 1):
+        if i not in keep:
+            c.rm(i)
+    for _ in range(30):
+        qv = [rng.uniform(-1, 1) for _ in range(dim)]
+        c.search(1, 0.0, False, 0, 1, 0, qv)
+        probes.append(('%d of %d documents left after removals' % (len(keep), n), keep))
+    lines, rc, err = run_harness(['search', path], c.text(), timeout=600)
+    if rc != 0 or any(l.startswith('PANIC') for l in lines):
+        return {'engine': 'lsh', 'what': 'the process died or an operation panicked on a %d-document collection: %s' % (n, err[-300:]), 'signature': 'lsh:big:died'}
+    res = [l for l in lines if l.startswith('res ')]
+    stats['big_forest_searches'] = len(res)
+    if len(res) != len(probes):
+        return {'engine': 'lsh', 'what': 'the big-forest run answered %d of %d searches' % (len(res), len(probes)), 'signature': 'lsh:big:count'}
+    for (what, allowed), l in zip(probes, res):
+        rows = parse_res(l)[1]
+        if not rows:
+            return {'engine': 'lsh', 'what': 'a default-precision K=1 search returned nothing although a live document passes the filter (%s)' % what,
+                    'signature': 'lsh:C04:no result although a live document'}
+        if rows[0][0] not in allowed:
+            return {'engine': 'lsh', 'what': 'a K=1 search returned document %d, which is not live or not accepted (%s)' % (rows[0][0], what), 'signature': 'lsh:C04:big-unsound'}
+    return None
+
+
 def check(prop, tier, seed, replay=None):
     chk = Check(prop, tier, seed)
     build = build_all()
@@ -355,6 +396,11 @@ def check(prop, tier, seed, replay=None):
                 corr = {'engine': 'lsh', 'channel': 'X.lsh.vm', 'what': 'model evaluation failed: ' + (e2 or o2)[-500:]}
             elif ml:
                 corr = {'engine': 'lsh', 'channel': 'X.lsh.update', 'what': 'an index update (insert/split/remove) differs from the model', 'commands': c.cmds[:c.cmds.index('docs')], 'step': vm_steps[ml[0]][:800]}
+    if nviol == 0 and replay is None and prop == 'C04' and corr is None:
+        v = big_forest_leg(rng, path, stats)
+        if v:
+            chk.violation(v)
+            nviol += 1
     if nviol == 0 and replay is None:
         if corr:
             corr['unproved'] = 'correspondence between coq/Float/Lsh.v and lshtree.go / Collection.Search no longer holds'
